@@ -60,17 +60,20 @@ func c12Cells(tier string) []Cell {
 }
 
 type c12Case struct {
-	N     int   `json:"n"`
-	Reads []int `json:"reads"`
-	Ties  bool  `json:"ties"`
-	Micro bool  `json:"micro,omitempty"` // operations are 1us apart instead of 1s
-	Exp   int   `json:"exp,omitempty"`   // that many additional entries which are long expired: the cycle deletes them before it looks at the limits
+	N       int   `json:"n"`
+	Reads   []int `json:"reads"`
+	Ties    bool  `json:"ties"`
+	Micro   bool  `json:"micro,omitempty"`   // operations are 1us apart instead of 1s
+	NoStats bool  `json:"nostats,omitempty"` // no StatsTracker attached (the metric oracle is skipped)
+	Exp     int   `json:"exp,omitempty"`     // that many additional entries which are long expired: the cycle deletes them before it looks at the limits
 }
 
 // history steps beyond the reads of key-000..key-003
 const (
 	c12ExpireAll = 4
 	c12Rewrite   = 5
+	c12Load0     = 6 // key-000 served through Load (the sync.Map-style entry point) instead of Read
+	c12Load2     = 7 // key-002 likewise
 )
 
 type c12stats struct{ evict []float64 }
@@ -109,6 +112,10 @@ func c12One(cc c12Cell, cs c12Case) (string, string, string, int) {
 	cfg := cache.Config{
 		Name: "c12", ExpirationJitter: -1, TimeToLive: time.Hour, CountSoftLimit: uint64(cc.Limit), EvictFraction: cc.Frac,
 		EvictionStrategy: cache.EvictionStrategy(cc.Strategy), Stats: st,
+	}
+
+	if cs.NoStats {
+		cfg.Stats = nil
 	}
 
 	// a soft limit of 2^62 bytes is configured but can never be exceeded: it must not cause eviction
@@ -196,6 +203,29 @@ func c12One(cc c12Cell, cs c12Case) (string, string, string, int) {
 			tick()
 
 			continue
+		case r == c12Load0 || r == c12Load2:
+			idx := 0
+			if r == c12Load2 {
+				idx = 2
+			}
+
+			if idx >= cs.N || b.Kind() == "SyncMap" {
+				continue // SyncMap has no Load
+			}
+
+			k := fmt.Sprintf("key-%03d", idx)
+			now := vclock.NowQuiet().UnixNano()
+
+			// a serve is a serve, whichever entry point it came through
+			_, _ = b.Load([]byte(k))
+
+			model[k].last = now
+			model[k].count++
+			ops++
+
+			tick()
+
+			continue
 		case r >= cs.N:
 			continue
 		}
@@ -265,7 +295,7 @@ func c12One(cc c12Cell, cs c12Case) (string, string, string, int) {
 				return "evict-without-breach", fmt.Sprintf("%s: %d of %d entries removed although count limit %d is not exceeded and EvictionNeeded=%s", label, removed, n, cc.Limit, cc.Needed)
 			}
 
-			if len(st.evict) != 0 {
+			if !cs.NoStats && len(st.evict) != 0 {
 				return "metric-without-eviction", fmt.Sprintf("%s: cache_evict emitted (%v) although no eviction was due", label, st.evict)
 			}
 
@@ -284,7 +314,7 @@ func c12One(cc c12Cell, cs c12Case) (string, string, string, int) {
 			}
 		}
 
-		if len(st.evict) != 1 || int(st.evict[0]) != removed {
+		if !cs.NoStats && (len(st.evict) != 1 || int(st.evict[0]) != removed) {
 			return "metric", fmt.Sprintf("%s: cache_evict emitted %v, %d entries were actually removed", label, st.evict, removed)
 		}
 
@@ -425,6 +455,36 @@ func c12Cases(cc c12Cell, tier string) []c12Case {
 				cases = append(cases, c12Case{N: n, Reads: h}, c12Case{N: n, Reads: h, Micro: true})
 			}
 		}
+
+		// serves through Load next to serves through Read, with and without a tracker attached
+		var loads [][]int
+
+		cur = [][]int{{}}
+		for l := 0; l < 3; l++ {
+			var next [][]int
+
+			for _, h := range cur {
+				for _, k := range []int{0, 1, 2, 3, c12Load0, c12Load2} {
+					next = append(next, append(append([]int{}, h...), k))
+				}
+			}
+
+			cur = next
+
+			for _, h := range next {
+				for _, k := range h {
+					if k >= c12Load0 {
+						loads = append(loads, h)
+						break
+					}
+				}
+			}
+		}
+
+		for _, h := range loads {
+			n := cc.Limit + 3
+			cases = append(cases, c12Case{N: n, Reads: h}, c12Case{N: n, Reads: h, NoStats: true})
+		}
 	}
 
 	return cases
@@ -488,7 +548,7 @@ func init() {
 		ID: "C12", Title: "Eviction fires only on limit breach, removes the right amount in strategy order",
 		Cells: c12Cells, Run: c12Run,
 		Rule: "complete grid CountSoftLimit x EvictFraction {default,0.1,0.25,0.5,0.9,1} x strategy {MostExpired,LRU,LFU} x EvictionNeeded {nil,false,true} x 3 backends; " +
-			"per cell every size 0..L+6, 3L+7, 10L x every read history of length <=3 (quick) / <=4 (thorough) over 4 keys x {operations 1s apart, 1us apart, all at one instant (tied ranks)}; sizes around the limit with 1 or 3 additional long-expired entries (deleted by the cycle before it looks at the limits); for LRU/LFU also every history of length <=3 over {4 reads, ExpireAll, re-write of a key} on two sizes above the limit; two cleanup cycles through the janitor's own invokeCleanup; " +
+			"per cell every size 0..L+6, 3L+7, 10L x every read history of length <=3 (quick) / <=4 (thorough) over 4 keys x {operations 1s apart, 1us apart, all at one instant (tied ranks)}; sizes around the limit with 1 or 3 additional long-expired entries (deleted by the cycle before it looks at the limits); for LRU/LFU also every history of length <=3 over {4 reads, ExpireAll, re-write of a key} on two sizes above the limit, and over {4 reads, 2 serves through Load} with and without a StatsTracker attached; two cleanup cycles through the janitor's own invokeCleanup; " +
 			"oracle: no eviction without breach, amount within one entry of the documented target, removed ranks <= kept ranks, cache_evict equals the entries actually removed",
 		Assumptions: []string{
 			"HeapInUseSoftLimit / SysMemSoftLimit depend on runtime.ReadMemStats, which is not a seam the harness owns; the shared code path after the decision is exercised through EvictionNeeded, and cells with limits of 2^62 bytes (heap only, sys only, both) check that a configured but unexceeded memory limit never evicts",
